@@ -6,6 +6,7 @@ use vstd::prelude::*;
 verus! {
 //@include ../frag/prelude_core.tpl
 //@include ../frag/tree.tpl
+//@include ../frag/rows.tpl
 //@include ../frag/unstable.tpl
 //@include ../frag/state.tpl
 //@include ../frag/endpoints.tpl
